@@ -30,7 +30,7 @@ ASSUMPTIONS = ['outcomes compare only the payload tag or the exception class',
 REQUIRED = {'families': 200, 'resolutions': 5000, 'reach._is_specialization_of': 2000, 'reach.choose_overload': 5000,
             'shape.specific+two-incomparable': 20, 'shape.mixed-no_kwargs': 20, 'shape.mixed-laziness': 10,
             'fresh.processes': 2, 'history.families': 100, 'history.multi_context_orders': 200, 'history.interleaved_lookups': 100,
-            'history.with_exclusive_registration': 30}
+            'history.with_exclusive_registration': 30, 'history.exclusive_layer_of_the_other_call_kind': 20}
 
 
 def gen_family(rng, shape=None):
@@ -215,7 +215,7 @@ def check_family(mon, layers, call, shape, rec, label):
     return outs
 
 
-def check_history(mon, layers, call, shape, rec, label):
+def check_history(mon, layers, call, shape, rec, label, exclusive_layer0=False):
     """the same layers of overloads assembled along different histories: registered at creation (baseline),
     registered late and in any order into an already existing chain - with look-ups through an already existing
     descendant in between -, and with every layer split over the members of a multi-context in every member order"""
@@ -229,6 +229,9 @@ def check_history(mon, layers, call, shape, rec, label):
         return
     # some registrations are exclusive (the layer then hides the layers behind it)
     excl = {id(o): (rng.random() < 0.15) for layer in layers for o in layer}
+    if exclusive_layer0 and layers[0]:
+        excl[id(layers[0][0])] = True
+        rec.count('history.exclusive_layer_of_the_other_call_kind')
     parent = mon['root']
     for layer in reversed(layers):
         ctx = yctx.Context(parent)
@@ -339,7 +342,15 @@ def run_shard(spec, rec):
         elif spec['kind'] == 'history':
             for i in range(spec['count']):
                 layers, call, shape = gen_family(rng, 'two-layers' if i % 2 else None)
-                check_history(mon, layers, call, shape, rec, '%s/%d' % (spec['name'], i))
+                other_kind = False
+                if len(layers) == 2 and i % 6 == 1 and not any(o.params[0].lazy for o in layers[0] if o.params):
+                    # the nearer layer holds only overloads of the call kind this call does not use, one of them
+                    # registered exclusively: the layer still ends the outward walk
+                    for o in layers[0]:
+                        o.kind = 'function' if call.get('method') else 'method'
+                    other_kind = all(o.params for o in layers[0])
+                check_history(mon, layers, call, shape + ('+other-kind-exclusive' if other_kind else ''), rec,
+                              '%s/%d' % (spec['name'], i), exclusive_layer0=other_kind)
         else:
             _fresh(spec, mon, rec, rng)
     finally:
